@@ -240,9 +240,16 @@ where
             recycle_tx.send(prev_buffer).ok();
 
             if self.buffer.block.data().len() > 0 {
-                break;
+                return Ok(());
             }
         }
+
+        // EOF: do not keep (or re-serve) the previously loaded block.
+        let block = &mut self.buffer.block;
+        block.set_position(self.position);
+        block.set_size(0);
+        block.data_mut().set_position(0);
+        block.data_mut().resize(0);
 
         Ok(())
     }
